@@ -17,7 +17,7 @@ REQUIREMENTS for the change:
 1. It modifies only files under `maze_dataset/` in your worktree (library code, not tests, not docs). Keep it small and plausible - the kind of thing a maintainer might write during a refactoring, optimisation or "clean-up" and a reviewer might wave through. No comments that give it away.
 2. It must make the property FALSE for some inputs/sequences, and it must need something SPECIFIC to manifest - {flavour}. NOT something that ordinary use or any existing test would expose at once.
 3. The whole existing test suite must still pass with the change. Run at least the relevant test directories, e.g. `cd {wt} && PYTHONPATH={wt} /venv/bin/python -m pytest -q -p no:cacheprovider -x tests/unit` (the full suite takes a while; at minimum run every test file that touches the code you changed, and preferably `tests/unit` completely). Tests that already fail without your change do not count.
-4. Write a demonstration program `demo.py`: a standalone script (no pytest needed) that exits 0 on the UNCHANGED library and exits non-zero (assertion failure / exception) WITH your change. It must exercise only public behaviour that the property talks about, and must be deterministic. Verify both directions yourself (use `git stash` / `git stash pop`, or `git diff > patch; git checkout .; run; git apply patch; run`).
+4. Write a demonstration program `demo.py`: a standalone script (no pytest needed) that exits 0 on the UNCHANGED library and exits non-zero (assertion failure / exception) WITH your change. It must exercise only public behaviour that the property talks about, and must be deterministic. Verify both directions yourself (use `git diff > patch; git checkout .; run; git apply patch; run` - do NOT use `git stash`: the stash is shared between worktrees of other people working on the same repository).
 
 OUTPUTS (all three required), written to {out}/ :
 - `patch.diff`  : output of `git -C {wt} diff` (must apply with `git apply` to a clean checkout of the same commit)
